@@ -132,6 +132,10 @@ type c19Op struct {
 	HasP2S bool   `json:"hasP2S,omitempty"`
 	P2S    []byte `json:"p2s,omitempty"`
 	P2C    int    `json:"p2c,omitempty"`
+	// HS > 0: the caller reuses objects — the *jwe.Header of slot HS (protected header of
+	// NewMessage/NewMessageWithKW, recipient header of Encrypt) and the KeyWrapper of slot HS are the
+	// SAME Go objects in every operation that names the slot.  HS == 0: new objects for this call.
+	HS int `json:"hs,omitempty"`
 }
 
 type c19Case struct {
@@ -338,6 +342,10 @@ type c19Obs struct {
 	Pos    uint64    `json:"pos"`    // random bytes consumed so far in this history
 	Reads  []c19Read `json:"reads"`  // reads made during this op
 	SkipOK bool      `json:"skipOK"` // an algorithm under repair failed in an unmodelled way
+	// the randomness-related members (iv, tag, p2s, p2c) of the CALLER's header object, encoded,
+	// before and after a jwe-level call
+	HdrBefore string `json:"hdrBefore,omitempty"`
+	HdrAfter  string `json:"hdrAfter,omitempty"`
 }
 
 type c19Msg struct {
@@ -347,9 +355,12 @@ type c19Msg struct {
 	iv  []byte
 	// serialised parts, for the content check
 	aad, ct, tag []byte
+	key          []byte // the key the content was found to be encrypted under
 }
 
 type c19Impl struct {
+	hdrs     map[int]*jwe.Header           // shared caller headers by slot
+	kws      map[int]keymanage.KeyWrapper  // shared caller key wrappers by slot
 	insts    []enc.Algorithm
 	instEnc  []string
 	msgs     []*c19Msg
@@ -547,6 +558,9 @@ func c19MsgView(m *jwe.Message) (v c19JSONMsg, protected map[string]any, ok bool
 	return
 }
 
+// content keys found in earlier operations (implementation runs are sequential)
+var c19PrevKeys [][]byte
+
 var c19Plain = []byte("C19 plaintext: the quick brown fox")
 
 func (im *c19Impl) exec(op c19Op) (o c19Obs) {
@@ -616,12 +630,14 @@ func (im *c19Impl) exec(op c19Op) (o c19Obs) {
 			}
 		case "newMessage", "newMessageKW":
 			var m *jwe.Message
+			h := im.header(op)
+			o.HdrBefore = c19HdrRand(h)
 			if op.T == "newMessage" {
-				h := &jwe.Header{}
 				m, err = jwe.NewMessage(jwa.EncryptionAlgorithm(op.Enc), h, c19Plain)
 			} else {
-				m, err = jwe.NewMessageWithKW(jwa.EncryptionAlgorithm(op.Enc), c19Wrapper(op), c19Header(op), c19Plain)
+				m, err = jwe.NewMessageWithKW(jwa.EncryptionAlgorithm(op.Enc), im.wrapper(op), h, c19Plain)
 			}
+			o.HdrAfter = c19HdrRand(h)
 			if err != nil {
 				return
 			}
@@ -652,7 +668,10 @@ func (im *c19Impl) exec(op c19Op) (o c19Obs) {
 				return
 			}
 			cm := im.msgs[op.I]
-			err = cm.msg.Encrypt(c19Wrapper(op), c19Header(op))
+			h := im.header(op)
+			o.HdrBefore = c19HdrRand(h)
+			err = cm.msg.Encrypt(im.wrapper(op), h)
+			o.HdrAfter = c19HdrRand(h)
 			if err != nil {
 				return
 			}
@@ -694,11 +713,34 @@ func (im *c19Impl) exec(op c19Op) (o c19Obs) {
 		if cm.cek != nil {
 			cands = append(cands, cm.cek)
 		}
+		// … and the content keys of all earlier messages of the history (a reused CEK is then seen as such)
+		for _, pm := range im.msgs[:len(im.msgs)-1] {
+			if pm.key != nil {
+				cands = append(cands, pm.key)
+			}
+		}
 		for _, k := range cands {
 			if cm.ct != nil && c19ContentKeyOK(op.Enc, k, cm.iv, cm.aad, cm.ct, cm.tag) {
 				items = append(items, c19Item{K: "contentOK", B: k, Known: true})
+				cm.key = k
 				break
 			}
+		}
+		if cm.key == nil && cm.ct != nil {
+			// last resort: a content key of an EARLIER history (a key kept across calls by the library)
+			for _, k := range c19PrevKeys {
+				if c19ContentKeyOK(op.Enc, k, cm.iv, cm.aad, cm.ct, cm.tag) {
+					items = append(items, c19Item{K: "contentOK", B: k, Known: true})
+					cm.key = k
+					break
+				}
+			}
+		}
+		if cm.key != nil && op.KW != "dir" {
+			if len(c19PrevKeys) >= 512 {
+				c19PrevKeys = c19PrevKeys[256:]
+			}
+			c19PrevKeys = append(c19PrevKeys, cm.key)
 		}
 	}
 	switch {
@@ -710,6 +752,54 @@ func (im *c19Impl) exec(op c19Op) (o c19Obs) {
 		o.Tag, o.Items = "ok", items
 	}
 	return
+}
+
+// header returns the caller's header object for the op: the shared object of its slot, or a new one.
+func (im *c19Impl) header(op c19Op) *jwe.Header {
+	if op.HS == 0 {
+		return c19Header(op)
+	}
+	if im.hdrs == nil {
+		im.hdrs = map[int]*jwe.Header{}
+	}
+	h, ok := im.hdrs[op.HS]
+	if !ok {
+		h = c19Header(op)
+		im.hdrs[op.HS] = h
+	}
+	return h
+}
+
+// wrapper returns the caller's key wrapper for the op: the shared object of its slot, or a new one.
+func (im *c19Impl) wrapper(op c19Op) keymanage.KeyWrapper {
+	if op.HS == 0 {
+		return c19Wrapper(op)
+	}
+	if im.kws == nil {
+		im.kws = map[int]keymanage.KeyWrapper{}
+	}
+	w, ok := im.kws[op.HS]
+	if !ok {
+		w = c19Wrapper(op)
+		im.kws[op.HS] = w
+	}
+	return w
+}
+
+// c19HdrRand encodes the randomness-related members of a header (as the library itself encodes them).
+func c19HdrRand(h *jwe.Header) string {
+	var data []byte
+	var err error
+	if p, _ := vf.Recover(func() { data, err = h.MarshalJSON() }); p || err != nil {
+		return "unencodable"
+	}
+	var m map[string]any
+	dec := json.NewDecoder(bytes.NewReader(data))
+	dec.UseNumber()
+	if dec.Decode(&m) != nil {
+		return "undecodable"
+	}
+	return fmt.Sprintf("iv=%v tag=%v p2s=%v p2c=%v", m["iv"], m["tag"], m["p2s"], m["p2c"])
 }
 
 // c19KWItems: which header members a key wrapper reports.
@@ -770,6 +860,8 @@ type c19Gen struct {
 	nInst    int
 	nMsg     int
 	slowLeft int // remaining PBES2 operations with the default count (each costs ≈10 ms)
+	nSlot    int
+	pending  []c19Op // operations of shared-object groups still to be emitted
 }
 
 func (g *c19Gen) kw(forMessage bool) (string, int) {
@@ -832,8 +924,59 @@ func (g *c19Gen) hdr(op *c19Op) {
 	}
 }
 
+// c19EncsWithCEK: the content encryption algorithms whose CEK has n bytes.
+func c19EncsWithCEK(n int) []string {
+	var out []string
+	for _, e := range c19Encs {
+		if k, _ := c19RefSizes(e); k == n {
+			out = append(out, e)
+		}
+	}
+	return out
+}
+
+// group queues 2–4 jwe-level calls that are all given the SAME caller objects (one *jwe.Header, one
+// KeyWrapper): NewMessageWithKW (any enc), Message.Encrypt (recipient header), NewMessage.
+func (g *c19Gen) group() {
+	r := g.r
+	g.nSlot++
+	tmpl := c19Op{HS: g.nSlot}
+	tmpl.KW, tmpl.KeyLen = g.kw(true)
+	encs := c19Encs
+	if tmpl.KW == "dir" {
+		tmpl.KeyLen, _ = c19RefSizes(vf.Pick(r, c19Encs))
+		encs = c19EncsWithCEK(tmpl.KeyLen)
+	}
+	g.hdr(&tmpl)
+	if tmpl.KW == "pbes2" && tmpl.P2C == 0 {
+		tmpl.P2C = 2 // the default count is exercised outside the groups (cost)
+	}
+	n := 2 + r.Intn(3)
+	for k := 0; k < n; k++ {
+		op := tmpl
+		switch x := r.Intn(8); {
+		case x < 5:
+			op.T, op.Enc = "newMessageKW", vf.Pick(r, encs)
+		case x < 7:
+			op.T, op.I = "encrypt", r.Intn(g.nMsg+1)
+		default:
+			op.T, op.Enc = "newMessage", vf.Pick(r, c19Encs)
+			g.nMsg++
+		}
+		g.pending = append(g.pending, op)
+	}
+}
+
 func (g *c19Gen) op() c19Op {
 	r := g.r
+	if len(g.pending) == 0 && r.Intn(10) == 0 {
+		g.group()
+	}
+	if len(g.pending) > 0 && r.Intn(3) > 0 {
+		op := g.pending[0]
+		g.pending = g.pending[1:]
+		return op
+	}
 	for {
 		switch r.Intn(20) {
 		case 0:
@@ -902,7 +1045,57 @@ func c19GenCase(r *vf.Rand, probe c19Probe, maxOps int, slow int) c19Case {
 	for i := 0; i < n; i++ {
 		cs.Ops = append(cs.Ops, g.op())
 	}
+	cs.Ops = append(cs.Ops, g.pending...) // finish a started shared-object group
 	return cs
+}
+
+// c19SharedCases: systematically, for every key-wrap family and key size and every content
+// encryption algorithm, one caller *jwe.Header and one KeyWrapper reused across
+// NewMessageWithKW ×3, NewMessage, Message.Encrypt ×2 (the same object as recipient header).
+func c19SharedCases(r *vf.Rand, probe c19Probe) []c19Case {
+	var out []c19Case
+	for _, kw := range []string{"akw", "gcmkw", "pbes2", "dir"} {
+		if kw == "dir" && probe.SkipDir {
+			continue
+		}
+		for _, kl := range []int{16, 24, 32} {
+			for ei, e := range c19Encs {
+				if kw == "dir" {
+					if kl != 16 {
+						continue
+					}
+				}
+				tmpl := c19Op{HS: 1, KW: kw, KeyLen: kl}
+				encs := c19Encs
+				if kw == "dir" {
+					tmpl.KeyLen, _ = c19RefSizes(e)
+					encs = c19EncsWithCEK(tmpl.KeyLen)
+				}
+				if kw == "pbes2" {
+					tmpl.P2C = 3
+					if kl == 16 && ei == 0 {
+						tmpl.P2C = 0 // once with the default count
+					}
+				}
+				cs := c19Case{Seed: r.U64()}
+				mk := func(t, enc string, i int) {
+					op := tmpl
+					op.T, op.Enc, op.I = t, enc, i
+					cs.Ops = append(cs.Ops, op)
+				}
+				mk("newMessageKW", e, 0)
+				mk("newMessageKW", e, 0)
+				mk("newMessageKW", vf.Pick(r, encs), 0)
+				mk("newMessage", e, 0)
+				mk("encrypt", "", 3)
+				mk("encrypt", "", 3)
+				mk("encrypt", "", 0)
+				mk("newMessageKW", e, 0)
+				out = append(out, cs)
+			}
+		}
+	}
+	return out
 }
 
 // ---------------------------------------------------------------------------------------------
@@ -1093,6 +1286,26 @@ func c19Predicate(c *vf.Ctx, run c19ImplRun) {
 	}
 	var msgs []*msg
 	claimed := map[uint64]int{}
+	// values used under one key across the whole history (shared caller objects make calls meet)
+	kwIVSeen := map[string]map[string]int{} // key-wrap key -> iv -> op
+	saltSeen := map[string]int{}            // drawn p2s -> op
+	cekSeen := map[string]int{}             // generated CEK -> op
+	contentIVSeen := map[string]map[string]int{} // content key -> content IV -> op
+	contentIV := func(i int, key, iv []byte) {
+		if key == nil || iv == nil {
+			return
+		}
+		m := contentIVSeen[string(key)]
+		if m == nil {
+			m = map[string]int{}
+			contentIVSeen[string(key)] = m
+		}
+		if prev, dup := m[string(iv)]; dup {
+			c19Fail(c, "property", "c19-content-iv-reuse", fmt.Sprintf("content IV already used under the same content key at op %d", prev),
+				cs, i, fmt.Sprintf("%x", iv), "pairwise distinct IVs under one key")
+		}
+		m[string(iv)] = i
+	}
 	// claim: value must be the content of exactly one read made during op i, not claimed before
 	claim := func(i int, what string, val []byte, wantLen int) bool {
 		o := run.obs[i]
@@ -1121,6 +1334,12 @@ func c19Predicate(c *vf.Ctx, run c19ImplRun) {
 			if k > 0 && o.Reads[k-1].Pos+o.Reads[k-1].N != rd.Pos {
 				c19Fail(c, "property", "c19-reader", "reads are not consecutive", cs, i, fmt.Sprint(o.Reads), "consecutive")
 			}
+		}
+		// the caller's header object must not receive the values drawn for this call (they would be
+		// taken as caller-supplied by the next call that is given the same object)
+		if o.HdrBefore != o.HdrAfter {
+			c19Fail(c, "property", "c19-caller-header-modified", "the call changed iv/tag/p2s/p2c of the caller's *jwe.Header",
+				cs, i, o.HdrAfter, o.HdrBefore)
 		}
 		if o.Tag != "ok" {
 			continue
@@ -1211,6 +1430,14 @@ func c19Predicate(c *vf.Ctx, run c19ImplRun) {
 				fresh := op.T == "newMessage" || !(op.KW == "dir" || op.KW == "ecdhDirect")
 				if fresh {
 					claim(i, "cek", it.B, cekLen)
+					if prev, dup := cekSeen[string(it.B)]; dup {
+						c19Fail(c, "property", "c19-cek-reuse", fmt.Sprintf("the CEK of the message created at op %d is used again", prev),
+							cs, i, fmt.Sprintf("%x", it.B), "a new CEK for every message")
+					}
+					cekSeen[string(it.B)] = i
+				}
+				if iv := get("iv"); iv != nil {
+					contentIV(i, it.B, iv.B) // dir: the same shared key meets in several messages
 				}
 			}
 			if ok := get("contentOK"); ok == nil {
@@ -1224,6 +1451,15 @@ func c19Predicate(c *vf.Ctx, run c19ImplRun) {
 			if it := get("kwIV"); it != nil {
 				if len(op.IV) == 0 { // none supplied
 					claim(i, "gcmkw-iv", it.B, 12)
+					kid := fmt.Sprintf("%s/%d", op.KW, op.KeyLen)
+					if kwIVSeen[kid] == nil {
+						kwIVSeen[kid] = map[string]int{}
+					}
+					if prev, dup := kwIVSeen[kid][string(it.B)]; dup {
+						c19Fail(c, "property", "c19-kwiv-reuse", fmt.Sprintf("AES-GCM key-wrap iv already used under the same key at op %d", prev),
+							cs, i, fmt.Sprintf("%x", it.B), "pairwise distinct key-wrap IVs under one key")
+					}
+					kwIVSeen[kid][string(it.B)] = i
 				} else if !bytes.Equal(it.B, op.IV) {
 					c19Fail(c, "property", "c19-supplied-iv-ignored", "supplied iv not used", cs, i, fmt.Sprintf("%x", it.B), fmt.Sprintf("%x", op.IV))
 				}
@@ -1231,6 +1467,11 @@ func c19Predicate(c *vf.Ctx, run c19ImplRun) {
 			if it := get("salt"); it != nil {
 				if !op.HasP2S {
 					claim(i, "pbes2-salt", it.B, 32)
+					if prev, dup := saltSeen[string(it.B)]; dup {
+						c19Fail(c, "property", "c19-p2s-reuse", fmt.Sprintf("PBES2 salt already used at op %d", prev),
+							cs, i, fmt.Sprintf("%x", it.B), "pairwise distinct salts")
+					}
+					saltSeen[string(it.B)] = i
 				} else if !bytes.Equal(it.B, op.P2S) {
 					c19Fail(c, "property", "c19-supplied-p2s-ignored", "supplied p2s not used", cs, i, fmt.Sprintf("%x", it.B), fmt.Sprintf("%x", op.P2S))
 				}
@@ -1269,15 +1510,44 @@ func c19Compare(c *vf.Ctx, run c19ImplRun, steps []c19ModelStep, log []c19ModelD
 	}
 	// message ids: the model numbers successful creations; so does the implementation
 	var allReads []c19Read
+	prevNLog := 0
 	msgCEK := map[int64][]byte{}
 	for i := range cs.Ops {
 		o, m := run.obs[i], steps[i]
 		allReads = append(allReads, o.Reads...)
 		c.Count("op:" + opName(cs, i))
 		c.Count("outcome:" + o.Tag)
+		if cs.Ops[i].HS > 0 {
+			c.Count("shared-caller-objects:calls:" + cs.Ops[i].T + "/" + cs.Ops[i].KW)
+		}
 		if o.Tag != m.Tag {
 			c19Fail(c, "correspondence", "c19-outcome-"+cs.Ops[i].T, "outcome class differs", cs, i,
 				"impl "+o.Tag+" "+o.What, "model "+m.Tag+" "+m.Cls)
+			return
+		}
+		// the draws of THIS call, one by one: a skipped, added or resized draw shows up here, at the
+		// call that made it (also on error paths, where bytes may have been consumed already)
+		if m.NLog < prevNLog || m.NLog > len(log) {
+			c19Fail(c, "correspondence", "c19-model", "model log count out of range", cs, i, fmt.Sprint(m.NLog), fmt.Sprint(len(log)))
+			return
+		}
+		md := log[prevNLog:m.NLog]
+		prevNLog = m.NLog
+		same := len(md) == len(o.Reads)
+		var drawn uint64
+		for k := 0; same && k < len(md); k++ {
+			same = md[k].Pos == o.Reads[k].Pos && uint64(len(md[k].Bytes)) == o.Reads[k].N
+		}
+		for _, rd := range o.Reads {
+			drawn += rd.N
+		}
+		if !same {
+			var ms []string
+			for _, x := range md {
+				ms = append(ms, fmt.Sprintf("%s[%d,+%d)", x.Kind, x.Pos, len(x.Bytes)))
+			}
+			c19Fail(c, "correspondence", "c19-draws-per-call-"+cs.Ops[i].T, "the draws made by this call differ from the model's", cs, i,
+				fmt.Sprintf("impl reads %v", o.Reads), fmt.Sprintf("model draws %v", ms))
 			return
 		}
 		if o.Pos != m.Pos {
@@ -1285,6 +1555,11 @@ func c19Compare(c *vf.Ctx, run c19ImplRun, steps []c19ModelStep, log []c19ModelD
 				fmt.Sprintf("impl pos=%d reads=%v", o.Pos, o.Reads), fmt.Sprintf("model pos=%d", m.Pos))
 			return
 		}
+		dn := cs.Ops[i].T
+		if cs.Ops[i].KW != "" {
+			dn += "/" + cs.Ops[i].KW
+		}
+		c.Count(fmt.Sprintf("bytes-drawn-per-call:%s:%s=%d", dn, o.Tag, drawn))
 		if m.Tag != "ok" {
 			if m.Tag == "err" {
 				c.Count("err:" + m.Cls)
